@@ -670,6 +670,8 @@ WRONG_FORMS = {
         ('UnitQuaternion(left.binop(right, lambda x, y: qqmul(x, y)))', 'the right operand is not conjugated: this is the product, not the quotient'),
         ('UnitQuaternion(left.binop(right, lambda x, y: qqmul(conj(y), x)))', 'conj(y) multiplies on the left: q2^-1 q1 instead of q1 q2^-1')],
     'twist inverse is negation': [('self.__class__([t for t in self.data])', 'inverse returns the twist itself')],
+    '3D logarithm of every element with the twist option': [('[trlog(x) for x in self.data]', 'the twist option is not passed to trlog: log(twist=True) returns matrices')],
+    '2D logarithm of every element with the twist option': [('[trlog2(x) for x in self.data]', 'the twist option is not passed to trlog2: log(twist=True) returns matrices')],
 }
 
 
@@ -701,7 +703,7 @@ def check_routes(run, routes, rule='R15'):
             found = False
             hit = None
             for n in own_walk(f.node):
-                if isinstance(n, (ast.Call, ast.Attribute, ast.BinOp)):
+                if isinstance(n, (ast.Call, ast.Attribute, ast.BinOp, ast.ListComp)):
                     try:
                         e = canon(fi, n)
                     except Exception:
